@@ -449,30 +449,49 @@ def part_definitions(ctx, M, H):
             ctx.tie_broken("definition-correspondence-run", "request %s -> %s" % (line[:200], a[:200]), dict(request=line))
             return
         texts = [un(w) for w in a.split(" ")[1:]]
-        # model: builder numbering in order of first valuation
-        uniq = 0
+        # model: the builder creates the parameters of a function at its first valuation (in the order of the ops), the
+        # default definitions are created when they are asked for (in the order of the queries)
         first_seen = []
         for i, _, _ in ops:
             if i not in first_seen:
                 first_seen.append(i)
-        start = {}
-        for i in first_seen:
-            start[i] = uniq
-            uniq += len(syms[i][1])
         allsorts = ["Bool", "?"] + sorts
+        symspecs = ["%s 0 %d %s %s" % (hx(nm), len(args), " ".join(sort_spec(allsorts[x]) for x in args), sort_spec(allsorts[ret])) if args else
+                    "%s 0 0 %s" % (hx(nm), sort_spec(allsorts[ret])) for (nm, args, ret) in syms]
+        predicted = {}
+        for v in ("f", "r"):
+            tbl = list(symspecs)
+            uniq = 0
+            heads = {}
+            ok = True
+            for i in first_seen + [j for j in range(nf) if j not in first_seen]:
+                kind = "b" if i in first_seen else "d"
+                w = M.proc.ask("D %s %s %d %d %s %d" % (v, kind, uniq, len(tbl), " ".join(tbl), i)).split(" ")
+                if w[0] == "NONE" or len(w) < 3:
+                    ok = False
+                    break
+                heads[i] = un(w[0])
+                if kind == "b":
+                    uniq = int(w[1])
+                np_ = int(w[2])
+                rest = w[3:]
+                k = 0
+                for _ in range(np_):
+                    nmh = rest[k]
+                    # a sort in the wire form: name/arity followed by its arguments (only nullary sorts here)
+                    tbl.append("%s 0 0 %s" % (nmh, rest[k + 1]))
+                    k += 2
+            predicted[v] = heads if ok else None
         for i, (nm, args, ret) in enumerate(syms):
-            symspec = "%s 0 %d %s %s" % (hx(nm), len(args), " ".join(sort_spec(allsorts[x]) for x in args), sort_spec(allsorts[ret]))
-            if i in start:
-                mw = M.proc.ask("D f b %d %s" % (start[i], symspec)).split(" ")
-            else:
-                mw = M.proc.ask("D f d 0 %s" % symspec).split(" ")
-            header = texts[i].split("\n    ")[0] if "\n    " in texts[i] else texts[i]
-            # the header is everything before the last "\n    <body>)\n"; bodies never contain the 5-blank indent themselves
             k = texts[i].rfind("\n    ")
             header = texts[i][:k]
-            if un(mw[0]) != header:
-                ctx.tie_broken("definition-correspondence", "printDefinitionSmtlib header: implementation %r, model %r" % (header, un(mw[0])), dict(request=line, function=nm))
-            judge_definition(ctx, M, texts[i], nm, [allsorts[x] for x in args], allsorts[ret], [s[0] for s in syms], i in start, line)
+            if predicted["f"] is None or predicted["f"].get(i) != header:
+                if predicted["r"] is not None and predicted["r"].get(i) == header:
+                    ctx.count("definition:repaired-variant-observed")
+                else:
+                    ctx.tie_broken("definition-correspondence", "printDefinitionSmtlib header: implementation %r, model %r" %
+                                   (header, (predicted["f"] or {}).get(i)), dict(request=line, function=nm))
+            judge_definition(ctx, M, texts[i], nm, [allsorts[x] for x in args], allsorts[ret], [s[0] for s in syms], i in first_seen, line)
         # constants
         if rng.random() < 0.5:
             cn = N2.pick_names(rng, 1, classes, "QF_UF")[0][0]
@@ -482,8 +501,11 @@ def part_definitions(ctx, M, H):
             ctx.case(key=kl, nontrivial=True, kind="definition:constant")
             text = un(ka.split(" ")[0])
             mw = M.proc.ask("K f %s 0 0 %s" % (hx(cn), sort_spec(sorts[si])))
+            mr = M.proc.ask("K r %s 0 0 %s" % (hx(cn), sort_spec(sorts[si])))
             k = text.rfind("\n    ")
-            if un(mw) != text[:k]:
+            if un(mw) != text[:k] and un(mr) == text[:k]:
+                ctx.count("definition:repaired-variant-observed")
+            elif un(mw) != text[:k]:
                 ctx.tie_broken("definition-correspondence", "printDefinitionSmtlib(constant) header: implementation %r, model %r" % (text[:k], un(mw)), dict(request=kl))
             judge_definition(ctx, M, text, cn, [], sorts[si], [cn], True, kl)
 
